@@ -1,6 +1,6 @@
 (** Non-vacuity for C11_frag: programs of the fragment, by computation. *)
 From Coq Require Import NArith List.
-From FF Require Import Aml.Grammar Aml.WfProgram Aml.ParserFragF0Final Aml.ParserFragF1Final Aml.ParserFragF3Final Aml.ParserFragF4Final Aml.ParserFragF5Final Aml.ParserFragF6Final Aml.ParserFragF7Final Aml.ParserFragT2Final Aml.ParserFragT2F7Final Aml.ParserFragTNTop Aml.ParserFragTNFinal Aml.ParserFragF8Final Aml.ParserFragTN8Final Props.C11_frag.
+From FF Require Import Aml.Grammar Aml.WfProgram Aml.ParserFragF0Final Aml.ParserFragF1Final Aml.ParserFragF3Final Aml.ParserFragF4Final Aml.ParserFragF5Final Aml.ParserFragF6Final Aml.ParserFragF7Final Aml.ParserFragT2Final Aml.ParserFragT2F7Final Aml.ParserFragTNTop Aml.ParserFragTNFinal Aml.ParserFragF8Final Aml.ParserFragTN8Final Aml.ParserFragF9Final Props.C11_frag.
 Import ListNotations.
 Local Open Scope N_scope.
 
@@ -402,4 +402,46 @@ Example C11_fragment_TN8_excludes :
   in_fragment_TN8 [] = false /\
   in_fragment_TN8 [[AScope 1 (mkName true 0 false [seg4 0x5f 0x53 0x42 0x5f]) []]; []] = false /\
   in_fragment_TN8 [[]; [AName (f0_nm 0x50 0x4b 0x47 0x30) (APackage 1 1 [APackage 1 1 [ARef (f0_nm 0x41 0x42 0x43 0x44)]])]] = false.
+Proof. vm_compute. repeat split. Qed.
+
+(** ---- F9: statements with constant operands in Method bodies ---- *)
+Definition f9_program : list (list ast) :=
+  [[AName (f0_nm 0x41 0x42 0x43 0x44) (AConst OP_BYTE 7);
+    AMethod 1 (f0_nm 0x4d 0x54 0x48 0x30) 2
+      [AName (f0_nm 0x4c 0x4f 0x43 0x30) (AConst OP_BYTE 1);
+       AOp 0x90 [AConst OP_BYTE 5; AConst 0x01 0];                      (* LAnd(5, One) *)
+       AOp 0x121 [AConst OP_WORD 0x03e8];                               (* Sleep(1000) *)
+       AOp 0xcc [];                                                     (* BreakPoint *)
+       AOp 0xa4 [AConst 0x00 0]];                                       (* Return(Zero) *)
+    ADevice 2 (f0_nm 0x44 0x45 0x56 0x30)
+      [AMethod 1 (f0_nm 0x5f 0x53 0x54 0x41) 0 [AOp 0xa4 [AConst OP_BYTE 0x0f]];                       (* Method(_STA){Return(0x0F)} *)
+       AMethod 1 (f0_nm 0x5f 0x48 0x49 0x44) 0 [AOp 0xa4 [AStr [0x50; 0x4e; 0x50; 0x30]]];             (* Return("PNP0") *)
+       AProcessor 1 (f0_nm 0x43 0x50 0x55 0x30) 1 0x410 6
+         [AMethod 2 (f0_nm 0x4d 0x54 0x48 0x31) 1 [AOp 0x93 [AConst OP_DWORD 0xdeadbeef; AConst 0xff 0]; AOp 0xa5 []]];
+       AName (f0_nm 0x50 0x4b 0x47 0x30) (APackage 1 2 [AConst OP_BYTE 1; APackage 1 1 [AStr [0x41]]])];
+    AMethod 1 (f0_nm 0x4d 0x54 0x48 0x32) 0 []]].
+
+Example C11_parse_encode_partial_F9_nonvacuous :
+  wf_program f9_program = true /\ in_fragment_F9 f9_program = true /\ in_fragment_F8 f9_program = false /\
+  in_fragment_F9 f2_program = true /\ in_fragment_F9 f0_program = true.
+Proof. vm_compute. repeat split. Qed.
+
+Example C11_parse_encode_partial_F9_instance : parse_encode_statement f9_program.
+Proof. apply C11_parse_encode_partial_F9; vm_compute; reflexivity. Qed.
+
+Example C11_parse_encode_partial_F9_run : parse_program f9_program = (0, ns f9_program) /\ length (ns f9_program) = 10%nat.
+Proof. vm_compute. split; reflexivity. Qed.
+
+(** the operands end up below the operator: the entry of \DEV0._STA is Method, flags 0, then Return with one argument 0x0f *)
+Example C11_parse_encode_partial_F9_sta :
+  In [1; 2; seg4 0x44 0x45 0x56 0x30; seg4 0x5f 0x53 0x54 0x41; OP_METHOD; OP_BYTE; 1; 0; 0; 0xa4; 0; 1; OP_BYTE; 1; 0x0f; 0] (snd (parse_program f9_program)).
+Proof. vm_compute. tauto. Qed.
+
+(** outside F9: a statement outside a Method body, an operand that is a Local object, Store (has a Target), a Scope directive *)
+Example C11_fragment_F9_excludes :
+  in_fragment_F9 [[AOp 0xa4 [AConst 0x01 0]]] = false /\
+  in_fragment_F9 [[ADevice 1 (f0_nm 0x44 0x45 0x56 0x30) [AOp 0xa4 [AConst 0x01 0]]]] = false /\
+  in_fragment_F9 [[AMethod 1 (f0_nm 0x4d 0x54 0x48 0x30) 0 [AOp 0xa4 [AOp 0x60 []]]]] = false /\
+  in_fragment_F9 [[AMethod 1 (f0_nm 0x4d 0x54 0x48 0x30) 0 [AOp 0x70 [AConst 0x01 0; AOp 0x60 []]]]] = false /\
+  in_fragment_F9 [[AScope 1 (mkName true 0 false [seg4 0x5f 0x53 0x42 0x5f]) []]] = false.
 Proof. vm_compute. repeat split. Qed.
